@@ -296,6 +296,11 @@ def gen_set(rng, extra: bool):
     p = rng.choice([0.0, 0.15, 0.3])
     msrc = spread(rng, tpl.print_nodes(main, st, rng), p)
     psrc = {k: spread(rng, tpl.print_nodes(v, st, rng), p) for k, v in partials.items()}
+    if rng.random() < 0.15:
+        # text that editors and tools treat specially at the start of a file is ordinary text to a template: every index still counts it
+        lead = rng.choice(["\ufeff", "\ufeff\ufeff", "\u200b", "\u2028", "\x0c", "\r\n", "\ufeff\n", "\ufffe"])
+        msrc = lead + msrc
+        psrc = {k: (lead + v if rng.random() < 0.5 else v) for k, v in psrc.items()}
     return msrc, psrc
 
 
